@@ -252,4 +252,39 @@ theorem runX_read_decides (c : CfgX) (io : Script) (j : Nat) (tmo : Option Nat) 
   have := attemptsX_first c io 0 0 0 (.missing false) j (Nat.zero_le _) hi.2
   exact ⟨by simpa [runX] using this.2, by simpa [runX] using this.1⟩
 
+/-! ### no retry budget, no reconnect -/
+
+theorem faultX_last (c : CfgX) (io : Script) (i k m : Nat) (rc : Bool) (t : List OpX) (hi : c.maxRetry ≤ i) :
+    faultX c io i k m rc t = .next t k m (.missing rc) := by
+  unfold faultX
+  have : ¬ i < c.maxRetry := by omega
+  simp [this]
+
+/-- on the last attempt nothing reconnects -/
+theorem step_no_rc (c : CfgX) (io : Script) (i k m : Nat) (last : Out) (hi : c.maxRetry ≤ i) :
+    nReconnectsX (attemptStepX c io i k m last).ops = 0 := by
+  fun_cases attemptStepX c io i k m last
+  all_goals try rw [faultX_last c io i _ m _ _ hi]
+  all_goals try simp [StepX.ops, OpX.isRc]
+  all_goals
+    rename_i hw hk _ t hp
+    have := (pend_facts c.base io.rd (k+1) 1 0).nrc
+    rw [hp] at this
+    simpa [nReconnectsX_liftPend] using this
+
+/-- a request without retry budget (`max_retry = 0`, the tester-present worker's ping) never reconnects and never
+    sleeps: a lost connection ends it with MissingResponse -/
+theorem runX_no_rc (c : CfgX) (io : Script) (h : c.maxRetry = 0) : (runX c io).reconnects = 0 := by
+  show nReconnectsX (attemptsX c io 0 0 0 (.missing false)).2 = 0
+  rw [attemptsX]
+  have hs := step_no_rc c io 0 0 0 (.missing false) (by omega)
+  simp only [h, Nat.lt_irrefl, dite_false]
+  split
+  · rename_i o t hst; rw [hst] at hs; simpa [StepX.ops] using hs
+  · rename_i t k' m' l hst
+    rw [hst] at hs
+    simp only [StepX.ops] at hs
+    rw [attemptsX_done c io 1 k' m' l (by omega)]
+    simpa [preX] using hs
+
 end Gallia.ClientIO
